@@ -20,7 +20,7 @@ partial def runSchedule {σ : Type} (rd : σ → List Byte × σ) (monitorAt : I
   | k :: rest =>
     let r := Wrap.read rd k s
     let acc := { acc with out := acc.out ++ r.1.1.toArray, prog := acc.prog ++ r.1.2.toArray }
-    runSchedule rd monitorAt rest k (idx + 1) r.2 acc
+    runSchedule rd monitorAt rest lastK (idx + 1) r.2 acc
   | [] =>
     if idx > 400000 then (acc, s) else
     let r := Wrap.read rd lastK s
